@@ -191,7 +191,9 @@ func (r *recorder) WriteString(s string) (n int, err error) {
 func (r *recorder) ReadFrom(src io.Reader) (n int64, err error) {
 	if rf, ok := r.ResponseWriter.(io.ReaderFrom); ok {
 		n, err = rf.ReadFrom(src)
-		if err == nil {
+		// Account for what was actually sent: bytes accepted before an error count, and an empty
+		// source sends nothing at all (not even the header).
+		if n > 0 {
 			if r.size == notWritten {
 				r.size = 0
 			}
